@@ -18,8 +18,8 @@ from esim.run import RunCtx, Tap, run_program
 from . import base
 
 ID = "C05"
-QUICK_RUNS = 4000
-THOROUGH_RUNS = 250000
+QUICK_RUNS = 10000
+THOROUGH_RUNS = 400000
 LEVEL = "exploration"
 RULE = ("one run = one structured concurrent program (threads spawning threads / preserve_context / "
         "serialize+continue_task, or asyncio tasks spawning tasks) executed under one seeded interleaving; "
